@@ -17,7 +17,7 @@ Definition rnn_case_ok (c : list (list Z) * list Z * list (list Z) * list Z * li
   let rev_rows := map2 (fun r h => rev (scan zcell h (rev r))) rows h0 in
   zll_eqb (loop zcell (cols f rows) h0) fo && zll_eqb (cols f fwd) fo &&
   zlist_eqb (map2 (fun s h => last_or h s) fwd h0) fl &&
-  zll_eqb (cols f rev_rows) ro && zlist_eqb (map2 (fun s h => hd h s) rev_rows h0) rl &&
+  zll_eqb (cols f rev_rows) ro && zll_eqb (rev (rloop Z Z zcell h0 (rev (cols f rows)) [])) ro && zlist_eqb (map2 (fun s h => hd h s) rev_rows h0) rl &&
   zlist_eqb (map Z.of_nat (compute_seq_lengths (map (@length Z) (cols f rows)))) (map (fun r => Z.of_nat (length r)) rows).
 Fixpoint bad_rnn (i : nat) (cs : list (list (list Z) * list Z * list (list Z) * list Z * list (list Z) * list Z)) : list nat :=
   match cs with [] => [] | c :: r => (if rnn_case_ok c then [] else [i]) ++ bad_rnn (S i) r end.
